@@ -304,6 +304,45 @@ def body_chunks(E, ch, ltm):
         return True
 
 
+def body_roundtrip_model(E, eng, v1, v2, v3, v4, a_none, chunks):
+    """save_ds -> load_ds over the conformance-checked dataset model (sym) / the real h5netcdf+joblib (replay):
+    what xyzpy's own code does to the dataset on the way (dimension order per variable, attribute rewriting,
+    the caller's object) - not the byte-level format"""
+    from .xrkit import fingerprint, same_fp
+    from ..stubs import minixr as mx
+
+    engine = ["h5netcdf", "joblib"][concretize(eng, 0, 1)]
+    real = E is REAL
+    env = Env("real") if real else Env("sym", fs="obj", xr=True)
+    with env:
+        def make():
+            coords = {"a": [1, 2], "b": [10, 20, 30]}
+            x = [[v1, v2, v3], [v4, v1, v2]]
+            y = [[v1, v4], [v2, v1], [v3, v2]]          # stored as (b, a): transposed relative to ds.dims
+            attrs = {"note": "n", "flag": None if cbool(a_none) else 3}
+            if real:
+                import numpy as np
+                import xarray as xr
+
+                return xr.Dataset(coords=coords, attrs=attrs, data_vars={
+                    "x": (("a", "b"), np.array(x, dtype=float)), "y": (("b", "a"), np.array(y, dtype=float))})
+            return mx.Dataset(coords=coords, attrs=attrs, data_vars={"x": (("a", "b"), x), "y": (("b", "a"), y)})
+
+        ds, expect = make(), make()
+        path = env.parent + "/rt"
+        mg.save_ds(ds, path, engine=engine)
+        kw = {"chunks": 1} if (cbool(chunks) and engine != "joblib") else {}
+        back = mg.load_ds(path, engine=engine, **kw)
+        fe, fb = fingerprint(env, expect), fingerprint(env, back)
+        if engine != "joblib" and cbool(a_none):
+            fe["attrs"]["flag"] = "None"                 # the documented rewriting
+        ok = same_fp(fe, fb)
+        if real:
+            back.close()
+        # the caller's dataset keeps its variables' dimension order
+        return ok and fingerprint(env, ds)["dims"] == fingerprint(env, expect)["dims"]
+
+
 BODIES = {}
 _G = globals()
 
@@ -323,6 +362,12 @@ CONDS = (
         make_cond(_G, "complex", body_complex, "eng:int cx:bool user:int", ["0 <= eng <= 2 and 0 <= user <= 2"],
                   timeout=120, bounds="complex data => invalid_netcdf=True unless the caller passed it; engine "
                                       "dispatch (joblib never calls to_netcdf)"),
+        make_cond(_G, "roundtrip_model", body_roundtrip_model,
+                  "eng:int v1:int v2:int v3:int v4:int a_none:bool chunks:bool", ["0 <= eng <= 1"], timeout=200,
+                  bounds="a 2x3 dataset with x(a,b) and y(b,a) (symbolic values), attributes incl. None, engines "
+                         "h5netcdf|joblib, chunks on/off: save_ds then load_ds gives back the same dims per variable, "
+                         "coords, values and attrs (up to the documented rewriting) and leaves the caller's dataset's "
+                         "layout alone; model level in the check, real files in the replay"),
         make_cond(_G, "chunks", body_chunks, "ch:int ltm:int", ["0 <= ch <= 2 and 0 <= ltm <= 2"], timeout=120,
                   bounds="chunks None/int/dict x load_to_mem None/True/False: chunks given => nothing forced into "
                          "memory and chunks forwarded; both given => ValueError; defaults => loaded and closed"),
